@@ -70,6 +70,13 @@ def run_case(c):
     if c["maxlevel"] is not None:
         kw["maxlevel"] = c["maxlevel"]
     rt = RenderTree(start, **kw)
+    it = iter(rt)
+    for _ in range(c.get("abandon", 0)):
+        try:
+            next(it)
+        except StopIteration:
+            break
+    del it
     got = [(r.pre, r.fill, r.node) for r in rt]
     exp = expected_rows(start, style, ci, c["maxlevel"])
     if len(got) != len(exp) or any(g[0] != e[0] or g[1] != e[1] or g[2] is not e[2] for g, e in zip(got, exp)):
@@ -106,8 +113,8 @@ def search(spec):
                 for style in ("ascii", "cont", "round", "double", "custom"):
                     for ci in ("list", "reversed", "sorted", "filter"):
                         for ml in [None] + list(range(0, n + 2)):
-                            for multi in (False, True):
-                                case = {"shape": sh, "start": start, "style": style, "childiter": ci, "maxlevel": ml, "multi": multi}
+                            for multi, abandon in ((False, 0), (True, 0), (False, 2), (False, 3)):
+                                case = {"shape": sh, "start": start, "style": style, "childiter": ci, "maxlevel": ml, "multi": multi, "abandon": abandon}
                                 total += 1
                                 try:
                                     bad = run_case(case)
